@@ -184,9 +184,12 @@ class Run:
             with open(rp, "w") as f:
                 json.dump(dict(property=pid, key=key, what=what, case=case, count=len(bykey[key]),
                                tier=self.tier, seed=self.seed), f, indent=1, default=str)
-            print("VIOLATION property=%s replay=%s" % (pid, rp))
-            print("  key=%s %s (x%d)" % (key, what, len(bykey[key])))
             nviol += 1
+            if nviol <= 12:
+                print("VIOLATION property=%s replay=%s" % (pid, rp))
+                print("  key=%s %s (x%d)" % (key, str(what)[:600], len(bykey[key])))
+        if nviol > 12:
+            print("  ... and %d more violation keys (replay files under %s)" % (nviol - 12, os.path.join(VERIF, "replays")))
         if not getattr(self, "replay_mode", False):
             self.write_evidence(level, nviol, sorted(k for k in bykey if k in known))
         shutil.rmtree(self.work, ignore_errors=True)
